@@ -444,7 +444,9 @@ func c18SetOps() []setOp {
 		v []any
 	}{{`"\""`, []any{`"`}}, {`["(",")"]`, []any{[]string{"(", ")"}}}, {`["<",">"],"'"`, []any{[]string{"<", ">"}, "'"}}, {`[")","]"]`, []any{[]string{")", "]"}}}, {`["\""]`, []any{[]string{`"`}}}, {"", nil}, {`"x"`, []any{"x"}}, {`"X"`, []any{"X"}},
 		// a pair whose right half may be taken while its left half is free, and that left half on its own
-		{`["<",")"]`, []any{[]string{"<", ")"}}}, {`"<"`, []any{"<"}}} {
+		{`["<",")"]`, []any{[]string{"<", ")"}}}, {`"<"`, []any{"<"}},
+		// a pair whose two sides are the same character (the long way to write a single one)
+		{`["'","'"]`, []any{[]string{"'", "'"}}}} {
 		e := e
 		add("SetEncap("+e.n+")", func(in *setInst) {
 			in.s.SetEncap(e.v...)
@@ -527,6 +529,20 @@ func c18SetMachine(c *Ctx, kind string, maxDepth int) *Machine[*setInst] {
 	// the start: settings are settings all the same (such a stack renders as the empty string)
 	rejecting := strings.HasSuffix(kind, " validity-rejecting")
 	kind = strings.TrimSuffix(kind, " validity-rejecting")
+	// "<KIND> nested-first": the content starts with a Condition and a nested Stack (elements that bring no
+	// padding of their own), the plain value comes last
+	nestedFirst := strings.HasSuffix(kind, " nested-first")
+	kind = strings.TrimSuffix(kind, " nested-first")
+	content := func() []any {
+		if nestedFirst {
+			return []any{stackage.Cond("k", stackage.Eq, "v"), stackage.Or().Push("x", "y"), "b"}
+		}
+		return []any{"a", "b"}
+	}
+	kids := []gnode{{T: "leaf", V: "a"}, {T: "leaf", V: "b"}}
+	if nestedFirst {
+		kids = []gnode{{T: "cond", Kw: "k", Op: 1, Kids: []gnode{{T: "leaf", V: "v"}}}, {T: "stack", Kind: "OR", Kids: []gnode{{T: "leaf", V: "x"}, {T: "leaf", V: "y"}}}, {T: "leaf", V: "b"}}
+	}
 	// "<KIND> encap-prefilled-<n>": the machine starts from an instance that was given n encapsulation
 	// pairs before, one call each (the long regime: every setter around a list that has grown n times)
 	prefill := 0
@@ -540,9 +556,9 @@ func c18SetMachine(c *Ctx, kind string, maxDepth int) *Machine[*setInst] {
 		New: func() *setInst {
 			own := []string{"{", "}"}
 			by := stackage.List().SetEncap(own).Push("by")
-			in := &setInst{s: newStackKind(kind).Push("a", "b"), kind: kind, own: own, by: by, byWant: by.String()}
+			in := &setInst{s: newStackKind(kind).Push(content()...), kind: kind, own: own, by: by, byWant: by.String()}
 			if withMutex {
-				in.s = newStackKind(kind).SetMutex().Push("a", "b")
+				in.s = newStackKind(kind).SetMutex().Push(content()...)
 			}
 			if rejecting {
 				in.s.SetValidityPolicy(func(...any) error { return errCat }).SetErr(errCat)
@@ -627,7 +643,7 @@ func c18SetMachine(c *Ctx, kind string, maxDepth int) *Machine[*setInst] {
 					enc = [][]string{}
 				}
 				want := gnode{T: "stack", Kind: kind, Paren: in.paren, Fold: in.fold, NoPad: in.nopad, Lonce: in.lonce, Sym: in.sym, Delim: in.delim, EncList: enc,
-					Kids: []gnode{{T: "leaf", V: "a"}, {T: "leaf", V: "b"}}}.ref()
+					Kids: kids}.ref()
 				if rejecting {
 					want = ""
 				}
@@ -660,7 +676,9 @@ type csetInst struct {
 	auxOK bool
 }
 
-func c18CondSetMachine(c *Ctx) *Machine[*csetInst] {
+func c18CondSetMachine(c *Ctx, variant ...string) *Machine[*csetInst] {
+	// variant "empty-list": the expression is a Stack that renders as nothing (the encapsulation is there all the same)
+	emptyList := len(variant) > 0 && variant[0] == "empty-list"
 	type op struct {
 		name string
 		run  func(in *csetInst)
@@ -709,9 +727,19 @@ func c18CondSetMachine(c *Ctx) *Machine[*csetInst] {
 	add("SetAuxiliary(map)", func(in *csetInst) { in.c.SetAuxiliary(in.ownAux()); in.aux, in.auxOK = in.ownAux(), true })
 	add("SetAuxiliary(empty map)", func(in *csetInst) { in.c.SetAuxiliary(c18EmptyAux); in.aux, in.auxOK = c18EmptyAux, true })
 	name := "C18 settings Condition"
+	exprText := "val"
+	if emptyList {
+		name += " over an empty LIST"
+		exprText = ""
+	}
 	return &Machine[*csetInst]{
-		Name:    name,
-		New:     func() *csetInst { return &csetInst{c: stackage.Cond("kw", stackage.Le, "val")} },
+		Name: name,
+		New: func() *csetInst {
+			if emptyList {
+				return &csetInst{c: stackage.Cond("kw", stackage.Le, stackage.List())}
+			}
+			return &csetInst{c: stackage.Cond("kw", stackage.Le, "val")}
+		},
 		NumOps:  len(ops),
 		OpName:  func(in *csetInst, i int) string { return ops[i].name },
 		Enabled: func(*csetInst, int) bool { return true },
@@ -745,10 +773,15 @@ func c18CondSetMachine(c *Ctx) *Machine[*csetInst] {
 					bad("Auxiliary", "Auxiliary() after %s = %v, want a fresh empty map", ops[i].name, a)
 				}
 			}
-			if cd.Keyword() != "kw" || cd.Expression() != "val" || cd.Operator() != stackage.Le {
+			exOK := cd.Expression() == "val"
+			if emptyList {
+				st, isStack := cd.Expression().(stackage.Stack)
+				exOK = isStack && st.IsInit() && st.Len() == 0
+			}
+			if cd.Keyword() != "kw" || !exOK || cd.Operator() != stackage.Le {
 				bad("content-changed", "%s changed keyword / operator / expression", ops[i].name)
 			}
-			if want, got := "kw <= "+refEncap(in.enc, "val"), cd.String(); got != want {
+			if want, got := "kw <= "+refEncap(in.enc, exprText), cd.String(); got != want {
 				bad("String", "String()=%q want %q (encapsulation %q)", got, want, in.enc)
 			}
 			c.Nontrivial(name + ops[i].name + stackage.VerifDump(cd).Key(false))
@@ -976,7 +1009,7 @@ func init() {
 				om = append(om, m)
 			}
 		}
-		sm = append(sm, c18SetMachine(c, "NOT mutex", 0), c18SetMachine(c, "AND validity-rejecting", 0), c18SetMachine(c, "LIST validity-rejecting", 0))
+		sm = append(sm, c18SetMachine(c, "NOT mutex", 0), c18SetMachine(c, "AND validity-rejecting", 0), c18SetMachine(c, "LIST validity-rejecting", 0), c18SetMachine(c, "AND nested-first", 0), c18SetMachine(c, "NOT nested-first", 0))
 		pre := []int{4, 5, 8}
 		if tier == "thorough" {
 			pre = []int{3, 4, 5, 7, 8, 9, 15, 16, 17, 33}
@@ -1018,14 +1051,18 @@ func init() {
 			c.Exhaustive = c.Exhaustive && st.Complete
 			c.Sample(map[string]any{"machine": m.Name, "states": st.States, "transitions": st.Transitions})
 		}
-		cm := c18CondSetMachine(c)
+		cmAll := []*Machine[*csetInst]{c18CondSetMachine(c), c18CondSetMachine(c, "empty-list")}
+		cm := cmAll[0]
+		cmAll[1].MaxDepth = 3
 		cm.MaxDepth = 3
 		if !c.Quick() {
 			cm.MaxDepth = 4
 		}
-		stc := BFS(c, cm)
-		c.Exhaustive = c.Exhaustive && stc.Complete
-		c.Sample(map[string]any{"machine": cm.Name, "states": stc.States, "transitions": stc.Transitions, "bfs_depth": stc.MaxDepth})
+		for _, cm := range cmAll {
+			stc := BFS(c, cm)
+			c.Exhaustive = c.Exhaustive && stc.Complete
+			c.Sample(map[string]any{"machine": cm.Name, "states": stc.States, "transitions": stc.Transitions, "bfs_depth": stc.MaxDepth})
+		}
 		c.Rule = "three BFS families on the real code: (1) option bits - every tri-state method found by reflection x {true,false,toggle} from every reachable option set (complete: 2^8 sets on Stacks); (2) string-valued settings (ID, category, delimiter, symbol incl. a letter symbol, case-fold, encapsulation incl. letters, auxiliary, FIFO) - every setter sequence of length <= 3 (quick) / 4 (thorough) from every kind, with state de-duplication; (3) log levels - fix-point over reachable masks with names, constants and raw ints (pairs of arguments in the thorough tier). non-trivial = distinct (state, operation) pairs"
 		c.Assumptions = append(c.Assumptions, "log-level 'none'/'all' shortcuts follow the documentation in log.go (set none = clear and stop, set all = everything and stop, unset none = skip, unset all = clear and stop)", "the settings family covers all setter sequences up to the depth reported in coverage.bound, not a fix-point")
 	}, Replay: func(c *Ctx, raw json.RawMessage) {
@@ -1047,8 +1084,10 @@ func init() {
 				replayHistory(c, m, hc.History, hc.Observed)
 			}
 		}
-		if cm := c18CondSetMachine(c); cm.Name == hc.Machine {
-			replayHistory(c, cm, hc.History, hc.Observed)
+		for _, cm := range []*Machine[*csetInst]{c18CondSetMachine(c), c18CondSetMachine(c, "empty-list")} {
+			if cm.Name == hc.Machine {
+				replayHistory(c, cm, hc.History, hc.Observed)
+			}
 		}
 	}})
 }
